@@ -192,6 +192,9 @@ C05_fullBoard(t) == (t.ev = "GameClosed" /\ Cardinality(Alive(t)) >= 2) => (Len(
 (* C06 - the hand tells its driver what comes next and always finishes      *)
 WaitPoints == {"ReadyRequested", "AnteRequested", "BlindsRequested", "RoundStarted", "RoundClosed", "GameClosed"}
 C06_waitPoint(t) == Started(t) => t.ev \in WaitPoints
+\* the SINGLE thing: while the hand waits for a table operation (everyone ready, antes, blinds, moving on) or is
+\* closed, no seat is offered an action (during a betting round the offers are those of the player to act: C04)
+C06_singleThing(t) == (Started(t) /\ t.ev \in (WaitPoints \ {"RoundStarted"})) => \A i \in Seats(t) : t.P[i].allowed = <<>>
 StartAllowed(g) == g.n >= 2 /\ Dealers(g) # {} /\ (\A i \in Seats(g) : g.P[i].bankroll > 0) /\ Len(g.meta.deck) > 0
 C06_start(g, t, o) == (o.op = "Start" /\ ~Started(g)) => (o.ok <=> StartAllowed(g)) /\ (o.ok => Started(t)) /\ (~o.ok => t = g)
 \* the single thing the hand is waiting for, performed: it succeeds and moves the hand on
@@ -281,18 +284,25 @@ C13_beforeBetting(t) == (Betting(t) /\ t.round = "preflop") =>
 
 (* C14 - cards are dealt without loss, duplication or change                *)
 Cat(ss) == LET RECURSIVE F(_) F(k) == IF k > Len(ss) THEN <<>> ELSE ss[k] \o F(k + 1) IN F(1)
-\* dealing order: hole cards seat by seat, then burn, flop(3), burn, turn, burn, river
-DealtInOrder(t) ==
-  LET holes == Cat([k \in 1..t.n |-> t.P[k - 1].hole])
-      b == t.board  u == t.burned
-      street(k, from, to) == IF Len(u) >= k /\ Len(b) >= to THEN <<u[k]>> \o SubSeq(b, from, to) ELSE <<>>
-  IN holes \o street(1, 1, 3) \o street(2, 4, 4) \o street(3, 5, 5)
+\* everything dealt so far: hole cards, burned cards, board.  The property fixes WHICH cards are out (the consumed
+\* top of the deck, each once) and that a card is burned before each street - not the order in which the hole
+\* cards go round the table
+Dealt(t) == Cat([k \in 1..t.n |-> t.P[k - 1].hole]) \o t.burned \o t.board
 IsPrefixOf(a, b) == Len(a) <= Len(b) /\ SubSeq(b, 1, Len(a)) = a
 NoRepeat(s) == \A a, b \in 1..Len(s) : a # b => s[a] # s[b]
+SameCards(a, b) == Len(a) = Len(b) /\ \A c \in ToSet(a) \cup ToSet(b) :
+   Cardinality({k \in 1..Len(a) : a[k] = c}) = Cardinality({k \in 1..Len(b) : b[k] = c})
+DeckPosOf(t, c) == LET I == {i \in 1..Len(t.meta.deck) : t.meta.deck[i] = c} IN IF I = {} THEN 0 ELSE CHOOSE i \in I : \A j \in I : i <= j
+\* the k-th burned card lies in the deck before the cards of the street it was burned for
+StreetCards(t, k) == IF k = 1 THEN SubSeq(t.board, 1, IF Len(t.board) < 3 THEN Len(t.board) ELSE 3)
+                     ELSE IF Len(t.board) >= k + 2 THEN <<t.board[k + 2]>> ELSE <<>>
+BurnedFirst(t) == \A k \in 1..Len(t.burned) : k <= 3 =>
+                     \A j \in 1..Len(StreetCards(t, k)) : DeckPosOf(t, t.burned[k]) < DeckPosOf(t, StreetCards(t, k)[j])
 C14_consumed(t) == Started(t) =>
   /\ t.deckPos \in 0..Len(t.meta.deck)
-  /\ DealtInOrder(t) = SubSeq(t.meta.deck, 1, t.deckPos)
-  /\ NoRepeat(DealtInOrder(t))
+  /\ SameCards(Dealt(t), SubSeq(t.meta.deck, 1, t.deckPos))
+  /\ NoRepeat(Dealt(t))
+  /\ BurnedFirst(t)
 C14_counts(t) == Started(t) =>
   /\ \A i \in Seats(t) : Len(t.P[i].hole) = (IF t.round = "" THEN 0 ELSE t.meta.holeN)
   /\ <<Len(t.board), Len(t.burned)>> =
@@ -303,8 +313,6 @@ C14_stable(g, t, o) == (Started(g) /\ t.n = g.n) =>
   /\ IsPrefixOf(g.board, t.board) /\ IsPrefixOf(g.burned, t.burned)
   /\ \A i \in Seats(g) : IsPrefixOf(g.P[i].hole, t.P[i].hole)
   /\ t.deckPos >= g.deckPos
-SameCards(a, b) == Len(a) = Len(b) /\ \A c \in ToSet(a) \cup ToSet(b) :
-   Cardinality({k \in 1..Len(a) : a[k] = c}) = Cardinality({k \in 1..Len(b) : b[k] = c})
 \* Start shuffles: `shuffled` is the deck the engine produced from `g.meta.deck`
 C14_shuffle(g, o, shuffled) == (o.op = "Start" /\ o.ok) => SameCards(g.meta.deck, shuffled)
 
@@ -319,7 +327,7 @@ FailedState(t, h2, props) ==
                            \cup N("C01.pots", C01_pots(t)) \cup N("C01.result", C01_result(t)) ELSE {}) \cup
   (IF "C04" \in props THEN N("C04.oneOffered", C04_oneOffered(t)) \cup N("C04.passOnly", C04_passOnly(t)) ELSE {}) \cup
   (IF "C05" \in props THEN N("C05.notLate", C05_notLate(t, h2)) \cup N("C05.fullBoard", C05_fullBoard(t)) ELSE {}) \cup
-  (IF "C06" \in props THEN N("C06.waitPoint", C06_waitPoint(t)) \cup N("C06.result", C06_result(t))
+  (IF "C06" \in props THEN N("C06.waitPoint", C06_waitPoint(t)) \cup N("C06.singleThing", C06_singleThing(t)) \cup N("C06.result", C06_result(t))
                            \cup N("C06.bounded", C06_bounded(t, h2)) ELSE {}) \cup
   (IF "C11" \in props THEN N("C11.offer", C11_offer(t, h2)) ELSE {}) \cup
   (IF "C12" \in props THEN N("C12.cwIsToMatch", C12_cwIsToMatch(t)) \cup N("C12.bounds", C12_bounds(t))
